@@ -13,6 +13,8 @@ namespace ys {
 struct Caps {
     bool hash = false;      // has a type_hash facet
     bool checked = false;   // runtime_checks (checked_perfect_hash)
+    bool lookup_checked = false; // ... and dynamic_vptr goes through the
+                                 // checked hash (not so for release_shared)
     bool indirect = false;  // indirect_vptr
     bool map = false;       // vptr_map
     bool deferred = false;  // deferred_static_rtti
